@@ -172,7 +172,20 @@ def sys_pendulum(t0=0.0, omega0=0.0, motor=False, spring=None, phi0=0.0):
     return system
 
 
-def sys_mass_spring(t0=0.0, compliance=True, v0=0.0):
+def sys_free_mass(t0=0.0):
+    """Point mass in free fall (linear: converges for every step size).  no constraint parts"""
+    from cardillo import System
+    from cardillo.discrete import PointMass
+    from cardillo.forces import Force
+
+    system = System(t0=t0)
+    pm = PointMass(1.0, q0=np.array([0.0, 0.0, 1.0]), u0=np.array([0.3, 0.0, 0.0]), name="pm")
+    system.add(pm, Force(np.array([0.0, 0.0, -9.81]), pm, name="gravity"))
+    system.assemble()
+    return system
+
+
+def sys_mass_spring(t0=0.0, compliance=True, v0=0.0, k=50.0):
     """Point mass on a spring to the origin, gravity in -z.  parts: c (compliance form) or none"""
     from cardillo import System
     from cardillo.discrete import PointMass
@@ -183,7 +196,7 @@ def sys_mass_spring(t0=0.0, compliance=True, v0=0.0):
     system = System(t0=t0)
     pm = PointMass(1.0, q0=np.array([0.0, 0.0, -1.0]), u0=np.array([v0, 0.0, 0.0]), name="pm")
     tpi = TwoPointInteraction(system.origin, pm, name="tpi")
-    sp = Spring(tpi, 50.0, l_ref=0.8, compliance_form=compliance, name="spring")
+    sp = Spring(tpi, k, l_ref=0.8, compliance_form=compliance, name="spring")
     grav = Force(np.array([0.0, 0.0, -9.81]), pm, name="gravity")
     system.add(pm, tpi, sp, grav)
     system.assemble()
